@@ -4,6 +4,7 @@
 (* programs, the real agent as trace function) against Dispatch.           *)
 (* A trace = header [tps] followed by one record per trace event:          *)
 (*   [ev |-> "tstart"|"tend", thr]                                         *)
+(*   [ev |-> "config", tps]    a new configuration was installed          *)
 (*   [ev |-> "call"|"line"|"return"|"exception", thr, file, fn, line,      *)
 (*    fired  |-> tracepoint ids that acted during this event (sorted),     *)
 (*    closed |-> spans closed during this event as <<tp id, opening event  *)
@@ -88,13 +89,21 @@ TrEvent ==
     /\ l' = l + 1
     /\ UNCHANGED <<tid, tps, alive, gen, exc>>
 
-TraceNext == TrThread \/ TrEvent
+(* the service's configuration changed between two trace events (a poll response was installed) *)
+TrConfig ==
+    /\ Live /\ E.ev = "config"
+    /\ tps' = SeqToSet(E.tps)
+    /\ l' = l + 1
+    /\ UNCHANGED <<tid, alive, gen, stack, exc, cb, items, acted, invDone, nInv, nEv, last>>
 
+TraceNext == TrThread \/ TrEvent \/ TrConfig
+
+(* (placement itself is enforced event by event in TrEvent: fired = Matching under the configuration in force) *)
 (* C15 / C03 invariants evaluated on every state of every validated execution *)
 NotBeforeItems == \A i \in 1..Len(items) : items[i].closed > 0 => items[i].openEv < nEv + 1
 NothingLeftItems == \A i \in 1..Len(items) :
                         (~alive[items[i].thr] \/ gen[items[i].thr] # items[i].gen) => items[i].closed = 1
-TraceInvariant == Placement /\ ExactlyOnce /\ ClosedWhenInvocationEnds /\ SameThread /\ NothingLeftItems
+TraceInvariant == ExactlyOnce /\ ClosedWhenInvocationEnds /\ SameThread /\ NothingLeftItems
 
 INSTANCE TraceCommon
 =============================================================================
